@@ -338,6 +338,8 @@ def oracle_multi(case):
             return r
         if a != b and case["wrap"] and case["pairs"][0][0][0] == case["pairs"][1][0][0] and core.is_open("P59"):
             r.covered("P59")  # the wrap rewrites the INPUT node in place: its second use is wrapped twice
+        elif a != b and case["pairs"][1][1][0] == case["pairs"][0][0][0] and core.is_open("P64"):
+            r.covered("P64")  # the node copied from the input keeps the input's location and is hit by the second pair
         elif a != b:
             r.fail("multi-pair-differs", "one call with both pairs gives another file than two consecutive calls: %s" % _diff(a, b))
         r.nontrivial = True
